@@ -655,6 +655,10 @@ __offs(struct zif_s z[static 1U], int32_t t)
 	if (LIKELY(t >= z->cache.prev && t < z->cache.next)) {
 		/* use the cached offset */
 		return z->cache.offs;
+	} else if (UNLIKELY(z->cache.prev == z->cache.next)) {
+		/* nothing cached yet, look at all transitions */
+		min = 0;
+		max = zif_ntrans(z);
 	} else if (t >= z->cache.next) {
 		min = z->cache.trno + 1;
 		max = zif_ntrans(z);
